@@ -42,6 +42,11 @@ type Tok struct {
 	Gap string
 }
 
+// ListClose marks (in Tok.Gap) the closing bracket of a non-empty argument list, parameter list, array literal or dictionary
+// literal: the gap before it may carry several comments (the parser skips trivia there, unlike before the `)` of a
+// parenthesised expression or the `]` of an index expression).
+const ListClose = "list-close"
+
 // Comment is a comment injected by Render.
 type Comment struct {
 	Text  string // full text including the delimiters
@@ -57,12 +62,17 @@ type Layout struct {
 	NonASCII     bool    // allow non-ASCII text in comments
 	DocComments  bool    // allow /// and /** */ comments
 	IndentSpaces int
+	// MultiComments is the probability that an eligible gap (after a comma, before a closing bracket) receives
+	// 2–3 comments in mixed forms instead of at most one.
+	MultiComments float64
 }
 
 // Rendered is the result of Render.
 type Rendered struct {
 	Text     string
 	Comments []Comment
+	// MultiGaps counts, per gap class, the gaps that received two or more comments.
+	MultiGaps map[string]int
 }
 
 func isWordByte(c byte) bool {
@@ -186,6 +196,7 @@ func blockComment(r *rand.Rand, l Layout, allowNewline bool) string {
 func Render(toks []Tok, r *rand.Rand, l Layout) Rendered {
 	var sb strings.Builder
 	var out Rendered
+	out.MultiGaps = map[string]int{}
 	depth := 0
 	indentUnit := strings.Repeat(" ", l.IndentSpaces)
 	atLineStart := true
@@ -213,7 +224,7 @@ func Render(toks []Tok, r *rand.Rand, l Layout) Rendered {
 			depth--
 		}
 		gapClass := t.Gap
-		if gapClass == "" {
+		if gapClass == "" || gapClass == ListClose {
 			switch {
 			case (prev == "(" && t.S == ")") || (prev == "[" && t.S == "]") || (prev == "{" && t.S == "}"):
 				gapClass = "empty-list"
@@ -259,7 +270,9 @@ func Render(toks []Tok, r *rand.Rand, l Layout) Rendered {
 				atLineStart = false
 			}
 			nl := t.Glue == SepLine || !semi || r.Intn(3) > 0
+			trailed, multiSep := false, false
 			if wantComment && nl && r.Intn(2) == 0 {
+				trailed = true
 				// trailing comment on the line of the previous token
 				sb.WriteByte(' ')
 				if r.Intn(2) == 0 {
@@ -276,9 +289,20 @@ func Render(toks []Tok, r *rand.Rand, l Layout) Rendered {
 						newline()
 					}
 				}
+				if (wantComment || trailed) && l.MultiComments > 0 && r.Float64() < l.MultiComments*2 {
+					wantComment = true
+					multiSep = true
+				}
 				if wantComment {
 					// leading comment(s) on their own line
-					for k := r.Intn(2); k >= 0; k-- {
+					nlead := r.Intn(2)
+					if multiSep && !trailed && nlead == 0 {
+						nlead = 1
+					}
+					if trailed || nlead > 0 {
+						out.MultiGaps["multi/separator"]++
+					}
+					for k := nlead; k >= 0; k-- {
 						writeIndent()
 						if r.Intn(2) == 0 {
 							addComment(lineComment(r, l), "leading")
@@ -298,6 +322,66 @@ func Render(toks []Tok, r *rand.Rand, l Layout) Rendered {
 			}
 		default: // Free
 			if i == 0 {
+				break
+			}
+			// several comments in one gap, in mixed forms: after the last element of an argument/parameter list or an
+			// array/dictionary literal (before the closing bracket) and after a comma
+			multiClass := ""
+			switch {
+			case t.S == ")" && t.Gap == ListClose:
+				multiClass = "multi/before-close-paren"
+			case t.S == "]" && t.Gap == ListClose:
+				multiClass = "multi/before-close-bracket"
+			case t.S == "}" && t.Gap == ListClose:
+				multiClass = "multi/before-close-brace"
+			case prev == ",":
+				multiClass = "multi/after-comma"
+			}
+			if multiClass != "" && l.MultiComments > 0 && r.Float64() < l.MultiComments {
+				switch r.Intn(4) {
+				case 0: // same-line `//`, then own-line `//` (one or two)
+					sb.WriteByte(' ')
+					addComment(lineComment(r, l), multiClass)
+					for k := r.Intn(2); k >= 0; k-- {
+						newline()
+						writeIndent()
+						addComment(lineComment(r, l), multiClass)
+					}
+					newline()
+					writeIndent()
+				case 1: // block comment followed by a line comment on the same line
+					sb.WriteByte(' ')
+					addComment(blockComment(r, l, false), multiClass)
+					sb.WriteByte(' ')
+					addComment(lineComment(r, l), multiClass)
+					newline()
+					writeIndent()
+				case 2: // line comment, then a block comment on the next line
+					sb.WriteByte(' ')
+					addComment(lineComment(r, l), multiClass)
+					newline()
+					writeIndent()
+					addComment(blockComment(r, l, true), multiClass)
+					if r.Intn(2) == 0 {
+						newline()
+						writeIndent()
+					}
+				default: // same-line block comment, then own-line line and block comments
+					sb.WriteByte(' ')
+					addComment(blockComment(r, l, false), multiClass)
+					newline()
+					writeIndent()
+					addComment(lineComment(r, l), multiClass)
+					newline()
+					writeIndent()
+					if r.Intn(2) == 0 {
+						addComment(blockComment(r, l, false), multiClass)
+						sb.WriteByte(' ')
+					}
+				}
+				sb.WriteByte(' ')
+				atLineStart = false
+				out.MultiGaps[multiClass]++
 				break
 			}
 			choice := r.Intn(10)
